@@ -60,6 +60,19 @@ SECRETS = (b"rn24" * 8, b"cn24" * 8)
 VEC = (1, b"ZZ")
 FAIL_TV = [(0, 3, b"eq", b"\xff\xfe\xfd")]
 PER_SHARE = [(tv, wv, nl) for tv in ("none", "pass", "fail") for wv in (0, 1) for nl in (None, 0)]
+# test vectors whose length differs from the specimen's: "absent" = the publisher's must-not-exist test
+# (0, 1, eq, b""), which passes only on a share without data; "short" = (0, 2, eq, <5 bytes>), which
+# compares 2 bytes of the share with a 5-byte specimen and can never pass
+PER_SHARE += [("absent", 1, None), ("absent", 0, None), ("short", 1, None)]
+
+
+def tv_passes(tv, cur):
+    data = cur[1] if cur else b""
+    if tv in ("none", "pass"):
+        return True
+    if tv == "absent":
+        return data[0:1] == b""
+    return False            # "fail", "short"
 
 
 def payload(sh, seed):
@@ -135,6 +148,11 @@ def build_request(named, combo, state):
             testv = []
         elif tv == "pass":
             testv = [(0, 3, b"eq", (cur[1] if cur else b"")[:3])]
+        elif tv == "absent":
+            testv = [(0, 1, b"eq", b"")]
+        elif tv == "short":
+            d5 = (cur[1] if cur else b"")[:5]
+            testv = [(0, 2, b"eq", d5 if len(d5) == 5 else b"abcde")]
         else:
             testv = list(FAIL_TV)
         tw[sh] = (testv, [VEC] if wv else [], nl)
@@ -145,7 +163,7 @@ def expected(state, named, combo, en):
     """-> (applies, post) ; post: {sh: set of acceptable (enabler, data) | None}"""
     existing = [s for s in state if s is not None]
     enabler_ok = all(s[0] == en for s in existing)
-    tests_ok = all(tv != "fail" for (tv, wv, nl) in combo)
+    tests_ok = all(tv_passes(tv, state[sh]) for sh, (tv, wv, nl) in zip(named, combo))
     applies = enabler_ok and tests_ok
     post = {sh: [state[sh]] for sh in (0, 1, 2)}
     if applies:
@@ -338,7 +356,7 @@ def run(tier, seed):
         "mixed_enabler_states": sum(1 for st in states if len(set(s[0] for s in st if s is not None)) > 1),
         "closure_checks": res.counts.get("closure_checks", 0),
         "exhaustive": True,
-        "rule": "every request of the product (named shares subset of {0,1,2}) x per share (testv none/pass/fail x writev none/one x new_length None/0) x enabler W1/W2/garbage x readv none/one "
+        "rule": "every request of the product (named shares subset of {0,1,2}) x per share (testv none/pass/fail x writev none/one x new_length None/0, plus the must-not-exist test (0,1,eq,'') and a 2-byte test against a 5-byte specimen) x enabler W1/W2/garbage x readv none/one "
                 "= %d requests, issued from every one of %d slot states (shares absent or created under W1/W2 with each data value of the alphabet's closure); each request runs on the real server "
                 "from a byte-exact materialisation of the state and is compared with the reference decision and post-state" % (nreq, len(states)),
     }
